@@ -155,12 +155,23 @@ func (cs ClientState) Initialize(ctx sdk.Context, _ codec.BinaryCodec, clientSto
 	return nil
 }
 
+// UpgradeState will check that the upgraded consensus state is a Tendermint consensus state
+// and will store ProcessedTime and the iteration key for it as Initialize does for the initial one
+// (without them no proof at the upgraded height can ever be verified)
 func (cs ClientState) UpgradeState(
 	ctx sdk.Context,
 	cdc codec.BinaryCodec,
 	store sdk.KVStore,
 	state exported.ConsensusState,
 ) error {
+	if _, ok := state.(*ConsensusState); !ok {
+		return sdkerrors.Wrapf(
+			clienttypes.ErrInvalidConsensus,
+			"invalid upgraded consensus state. expected type: %T, got: %T",
+			&ConsensusState{}, state,
+		)
+	}
+	setConsensusMetadata(ctx, store, cs.GetLatestHeight())
 	return nil
 }
 
